@@ -575,6 +575,9 @@ def joinSlash : List Bytes → Bytes
 
 def candidates (id : Bytes) (idx : Index) : List Bytes := (idx.filter (·.1 = id)).map (·.2)
 
+/-- `path.Join` drops a trailing slash; the config as a whole is only served at "/config/" -/
+def rootSlash (p : Bytes) : Bytes := if p = slash :: cfgKey then p ++ [slash] else p
+
 /-- `handleConfigID`: the rewritten `r.URL.Path` -/
 def handleConfigID (idx : Index) (path : Bytes) : IdRes :=
   match splitSlash path with
@@ -584,7 +587,7 @@ def handleConfigID (idx : Index) (path : Bytes) : IdRes :=
     else
       match candidates p2 idx with
       | [] => .fail .idUnknown
-      | [expanded] => .to (cleanRooted (expanded ++ slash :: joinSlash rest))
+      | [expanded] => .to (rootSlash (cleanRooted (expanded ++ slash :: joinSlash rest)))
       | _ => .ambiguous
   | _ => .fail .idMissing
 
